@@ -384,6 +384,7 @@ func (x *Exec) withCtx(ctx context.Context, rec M, command bool) M {
 	rec["addr"] = ok && a.ID >= 1 && a.ID <= len(x.Conns)
 	rec["tm"] = wire.TypeMap(ctx) != nil
 	rec["au"] = wire.AuthenticatedUsername(ctx)
+	rec["authv"], _ = ctx.Value(authKey).(string)
 	rec["su"] = wire.IsSuperUser(ctx)
 	if command {
 		conn := x.connOf(ctx)
@@ -400,6 +401,10 @@ func (x *Exec) withCtx(ctx context.Context, rec M, command bool) M {
 	}
 	return rec
 }
+
+type authKeyT struct{}
+
+var authKey = authKeyT{}
 
 func (x *Exec) validate(ctx context.Context, database, username, password string) (context.Context, bool, error) {
 	x.retainStr(database)
@@ -418,7 +423,8 @@ func (x *Exec) validate(ctx context.Context, database, username, password string
 	x.cb(ctx, M{"name": "validate", "db": database, "user": username, "pw": password, "ret": ret})
 	switch ret {
 	case "good":
-		return ctx, true, nil
+		// what the validator learnt travels with the context it returns
+		return context.WithValue(ctx, authKey, username), true, nil
 	case "err":
 		return ctx, false, errors.New("validator failed")
 	case "gooderr":
